@@ -8,7 +8,9 @@ import (
 	"bytes"
 	"errors"
 	"io"
+	"net"
 	"strings"
+	"time"
 )
 
 // FragReader is an io.Reader over a byte string that follows a fragmentation
@@ -105,7 +107,31 @@ func (w *RecWriter) Bytes() []byte {
 // really pass (the library itself wraps payloads in bytes.Buffer and
 // bytes.Reader), and code which looks at the concrete type of its reader must
 // not behave differently for any of them.
-var SourceKinds = []string{"frag", "frag", "frag", "buffer", "buffer", "reader", "strings", "bufio"}
+var SourceKinds = []string{"frag", "frag", "frag", "buffer", "buffer", "reader", "strings", "bufio", "conn"}
+
+// fragConn is a net.Conn whose reading side is a FragReader: what an endpoint
+// hands to the message decoder is a connection, and code which finds deadline
+// methods on its reader may use them (they succeed and change nothing here;
+// the stream ends where the data ends, as when the peer closes).
+type fragConn struct {
+	*FragReader
+	Deadlines int
+}
+
+type fragAddr struct{}
+
+func (fragAddr) Network() string { return "frag" }
+func (fragAddr) String() string  { return "frag" }
+
+func (c *fragConn) Write(p []byte) (int, error)        { return len(p), nil }
+func (c *fragConn) Close() error                       { return nil }
+func (c *fragConn) LocalAddr() net.Addr                { return fragAddr{} }
+func (c *fragConn) RemoteAddr() net.Addr               { return fragAddr{} }
+func (c *fragConn) SetDeadline(t time.Time) error      { c.Deadlines++; return nil }
+func (c *fragConn) SetReadDeadline(t time.Time) error  { c.Deadlines++; return nil }
+func (c *fragConn) SetWriteDeadline(t time.Time) error { c.Deadlines++; return nil }
+
+var _ net.Conn = (*fragConn)(nil)
 
 // Source builds a byte source of the given kind over data and a function
 // reporting how many bytes of data have been taken from it so far (for the
@@ -121,6 +147,9 @@ func Source(kind string, data []byte, chunks []int, eofWith bool) (io.Reader, fu
 	case "strings":
 		r := strings.NewReader(string(data))
 		return r, func() int { return len(data) - r.Len() }
+	case "conn":
+		f := NewFragReader(data, chunks, eofWith)
+		return &fragConn{FragReader: f}, func() int { return f.Pos }
 	case "bufio":
 		f := NewFragReader(data, chunks, eofWith)
 		b := bufio.NewReaderSize(f, 16)
